@@ -332,7 +332,7 @@ def tls_gen(rng, tier):
     out = []
     n = 0
     for rep in range(budget(tier, 1, 4)):
-        for proto in ("tls", "https", "quic"):
+        for proto in ("tls", "https", "quic", "h3"):
             for ca in (0, 1):
                 for ins in (0, 1):
                     for peer in CERTS:
@@ -343,6 +343,8 @@ def tls_gen(rng, tier):
                             out.append("t%d role=up proto=%s ca=%d ck=%d ins=%d vc=%d peer=%s srvreq=%d"
                                        % (n, proto, ca, ck, ins, vc, peer, srvreq))
                             n += 1
+            if proto == "h3":
+                continue                # upstream-only helper scheme
             for vc in (0, 1):
                 for ca in (0, 1):
                     for peer in CERTS[:6] + ["absent"]:
@@ -519,8 +521,8 @@ PROPS["C17"] = dict(
          "trySplitHostPort, and random strings; endpoint: real upstream.NewUpstream for 13 scheme spellings x 7 "
          "hosts x port presence x 4 dial_addr forms against loopback fake servers of the scheme's own protocol "
          "(dial captured in the socket Control callback, SNI/Host at the server, certificate for the URL host or "
-         "for another name); tls: real router in-process, upstream {tls,https,quic} x ca x insecure_skip_verify x "
-         "5 server certificate kinds x client cert/server demand, and listener {tls,https,quic} x "
+         "for another name); tls: real router in-process, upstream {tls,https,quic,h3} x ca x insecure_skip_verify x "
+         "7 server certificate kinds x client cert/server demand, and listener {tls,https,quic} x "
          "verify_client_cert x ca x 7 client certificate kinds (both roles incl. certificates chaining to the "
          "harness-controlled SYSTEM trust store but not to the configured ca); sockets: real upstream.NewUpstream "
          "for 13 scheme spellings x {no dial_addr, dial_addr != URL host, default ports} driven until every socket "
